@@ -112,8 +112,8 @@ class Env:
     def feed(self, name, shape):
         """plain-mode RNG feed: the model values of the symbolic draw called ``name``."""
         a = np.empty(shape, dtype=np.float64)
-        for idx in np.ndindex(*shape):
-            nm = name + "".join("_%d" % i for i in idx)
+        for k, idx in enumerate(np.ndindex(*shape)):
+            nm = name + "_f%d" % k          # draws are named by their position in the stream (see array.sym_array)
             if self.autosample and nm not in self.point:
                 self.point[nm] = round(0.05 + 0.9 * self.rng.random(), 3)
             a[idx] = self.point[nm]
